@@ -348,7 +348,10 @@ func (ef *Filter) filterField(ctx context.Context, v reflect.Value, filterOverri
 				break
 			}
 		}
-		opt = append(opt[:removeIdx], opt[removeIdx+1:]...)
+		// build a new slice: opt shares its backing array with the caller's
+		stripped := make([]Option, 0, len(opt))
+		stripped = append(stripped, opt[:removeIdx]...)
+		opt = append(stripped, opt[removeIdx+1:]...)
 	}
 
 	for i := 0; i < v.Type().NumField(); i++ {
@@ -453,8 +456,9 @@ func (ef *Filter) filterField(ctx context.Context, v reflect.Value, filterOverri
 				// okay, we've dealt with the "Taggable" things, let's check for other
 				// fields that need to be filtered, but be sure to ignore taggable
 				// on the next recursion or will be in an infinite loop
-				opt = append(opt, withIgnoreTaggable())
-				if err := ef.filterField(ctx, field, filterOverrides, tm, opt...); err != nil {
+				// (a new slice, so the fields that follow keep their own options)
+				ignoreOpt := append(append(make([]Option, 0, len(opt)+1), opt...), withIgnoreTaggable())
+				if err := ef.filterField(ctx, field, filterOverrides, tm, ignoreOpt...); err != nil {
 					return fmt.Errorf("%s: %w", op, err)
 				}
 			} else if err := tm.trackMap(&tMap{value: field}); err != nil {
@@ -503,8 +507,9 @@ func (ef *Filter) filterTaggable(ctx context.Context, t Taggable, filterOverride
 		}
 		rv := reflect.Indirect(reflect.ValueOf(value))
 		info := getClassificationFromTagString(fmt.Sprintf("%s,%s", pt.Classification, pt.Filter), withFilterOperations(filterOverrides))
-		opt = append(opt, withPointer(t, pt.Pointer))
-		if err = ef.filterValue(ctx, rv, info, opt...); err != nil {
+		// (a new slice: opt shares its backing array with the caller's)
+		ptrOpt := append(append(make([]Option, 0, len(opt)+1), opt...), withPointer(t, pt.Pointer))
+		if err = ef.filterValue(ctx, rv, info, ptrOpt...); err != nil {
 			return fmt.Errorf("%s: %w", op, err)
 		}
 		if err := tm.trackTaggable(t, pt.Pointer); err != nil {
